@@ -17,7 +17,7 @@ from pony.orm.sqltranslation import SQLTranslator, StringExprMonad
 from pony.orm.sqlbuilding import SQLBuilder, Value, join, make_unary_func
 from pony.orm.dbapiprovider import DBAPIProvider, Pool, wrap_dbapi_exceptions
 from pony.utils import datetime2timestamp, timestamp2datetime, absolutize_path, localbase, throw, reraise, \
-    cut_traceback_depth
+    cut_traceback_depth, is_ident
 
 class SqliteExtensionUnavailable(Exception):
     pass
@@ -82,12 +82,18 @@ class SQLiteBuilder(SQLBuilder):
         return builder.SELECT(*sections)
     @classmethod
     def eval_json_path(cls, values):
-        values = list(values)
-        path = SQLBuilder.eval_json_path(values)
-        if not any(isinstance(value, int) and value < 0 for value in values): return path
-        # JSON1 functions address array items counted from the end as [#-N]
-        return '$' + ''.join('[#%d]' % value if isinstance(value, int) and value < 0
-                             else SQLBuilder.eval_json_path([value])[1:] for value in values)
+        result = ['$']
+        for value in values:
+            if isinstance(value, int) and value < 0:
+                result.append('[#%d]' % value)  # JSON1 functions address array items counted from the end as [#-N]
+            elif isinstance(value, str) and not is_ident(value):
+                # a label is matched against the JSON text of the member name, so it is written the way it is stored
+                label = json.dumps(value, **SQLiteJsonConverter.json_kwargs)
+                if '"' in value and sqlite.sqlite_version_info < (3, 45) and '.' not in value and '[' not in value:
+                    label = label[1:-1]  # before 3.45 a quoted label ends at the first double quote, escaped or not
+                result.append('.' + label)
+            else: result.append(SQLBuilder.eval_json_path([value])[1:])
+        return ''.join(result)
     def INSERT(builder, table_name, columns, values, returning=None):
         if not values: return 'INSERT INTO %s DEFAULT VALUES' % builder.quote_name(table_name)
         return SQLBuilder.INSERT(builder, table_name, columns, values, returning)
@@ -553,7 +559,7 @@ def py_json_unwrap(value):
 
 path_cache = {}
 
-json_path_re = re.compile(r'\[#?(-?\d+)\]|\.(?:(\w+)|"([^"]*)")', re.UNICODE)
+json_path_re = re.compile(r'\[#?(-?\d+)\]|\.(?:"((?:[^"\\]|\\.)*)"|([^."\[][^.\[]*))', re.UNICODE)
 
 def _parse_path(path):
     if path in path_cache:
@@ -567,7 +573,8 @@ def _parse_path(path):
             match = json_path_re.match(path, pos)
             if match is not None:
                 g1, g2, g3 = match.groups()
-                keys.append(int(g1) if g1 else g2 or g3)
+                # a label, quoted or not, holds the JSON-escaped text of the key
+                keys.append(int(g1) if g1 else json.loads('"%s"' % (g2 or g3 or '')))
                 pos = match.end()
             else:
                 keys = None
